@@ -4,6 +4,7 @@ import (
 	"bytes"
 	"io/fs"
 	"os"
+	"path/filepath"
 	"strconv"
 
 	"github.com/ipfs/go-unixfsnode/data/builder"
@@ -180,14 +181,22 @@ func VerifRecursiveWriteFaults() {
 	st := verifmodel.NewStore()
 	ls := st.LinkSystem()
 	ow := watchOrder(st, ls)
-	if verifrt.Native() {
-		verifrt.Stop() // the write-fault positions are explored symbolically; file/dir builders replay natively in the other C16 programs
-	}
-	m := &modelFS{root: root, byPath: map[string]*fsNode{}, files: map[*os.File]*bytes.Reader{}, opens: map[string]int{}, readdir: map[string]int{}}
-	m.index(root, "/t/r")
-	m.install()
 	faultPlan(st, 8)
-	lnk, _, err := builder.BuildUnixFSRecursive("/t/r", ls)
+	var lnk datamodel.Link
+	var err error
+	if verifrt.Native() {
+		// the same tree on the real filesystem
+		dir, _ := os.MkdirTemp("", "verifc16")
+		defer os.RemoveAll(dir)
+		p := filepath.Join(dir, "r")
+		materialise(root, p)
+		lnk, _, err = builder.BuildUnixFSRecursive(p, ls)
+	} else {
+		m := &modelFS{root: root, byPath: map[string]*fsNode{}, files: map[*os.File]*bytes.Reader{}, opens: map[string]int{}, readdir: map[string]int{}}
+		m.index(root, "/t/r")
+		m.install()
+		lnk, _, err = builder.BuildUnixFSRecursive("/t/r", ls)
+	}
 	checkBuildOutcome(ow, st, lnk, err)
 	verifrt.Reach("end")
 }
